@@ -2084,6 +2084,22 @@ class Engine:
             return r_div(a, b)
         if isinstance(op, ast.Pow):
             return self.power(a, b)
+        if isinstance(op, ast.LShift):
+            if not isinstance(a, SV) and not isinstance(b, SV):
+                return a << b
+            if not isinstance(a, SV) and a == 1 and is_intlike(b):
+                # 1 << i : a positive integer, strictly increasing in i (uninterpreted power of two)
+                f = self.uf('pow2', z3.IntSort(), z3.IntSort())
+                t = f(term(b))
+                self.pc.append(z3.And(t >= 1, z3.Implies(term(b) == 0, t == 1), f(term(b) + 1) == 2 * t))
+                return SV(t, 'int')
+            raise EngineError('shift of symbolic values')
+        if isinstance(op, ast.BitAnd):
+            if not isinstance(a, SV) and not isinstance(b, SV):
+                return a & b
+            if not isinstance(b, SV) and b == 1 and is_intlike(a):
+                return SV(term(a) % 2, 'int')
+            raise EngineError('bit-and of symbolic values')
         if isinstance(op, (ast.FloorDiv, ast.Mod)):
             if cx:
                 raise PyRaise('TypeError', ())
